@@ -25,7 +25,8 @@ Rt(r) ==
   /\ r.got = r.exp                                                   \* decodes to the same message
   /\ r.wtype = TypeCode(s.kind)
   /\ SameSeq(r.wconn, ConnCodes(s))
-  /\ IF HasRecord(s) /\ s.ttl > 0 THEN /\ r.wttl >= 1 /\ r.wttl <= s.ttl
+  /\ IF HasRecord(s) /\ Has(s, "ttl_ms") THEN r.wttl = 1 /\ r.ein >= 0 /\ r.eout >= 0      \* less than a second left: sent as 1 s, still expiring
+     ELSE IF HasRecord(s) /\ s.ttl > 0 THEN /\ r.wttl >= 1 /\ r.wttl <= s.ttl
                                       /\ r.ein >= 0 /\ r.eout >= 0 /\ r.eout >= r.ein - S /\ r.eout <= r.ein + r.t1
      ELSE IF HasRecord(s) THEN r.wttl = 0 /\ r.eout = -1
      ELSE IF s.dir = "resp" /\ s.kind = "PutValue" THEN r.wttl = 0 /\ r.eout = -1      \* (response echoes key/value in a record)
